@@ -8,4 +8,4 @@ CONSTANTS
   CountOps = FALSE
 VIEW absvars
 INVARIANTS TypeOK IsCanon NoLeakNoDangling Independent
-PROPERTIES ObserversPure NoexceptNeverThrow ThrowChangesNothing OthersUntouched CopyCopies SwapSwaps
+PROPERTIES ObserversPure NoexceptNeverThrow ThrowChangesNothing OthersUntouched CopyCopies SwapSwaps ObserversAgree
